@@ -260,6 +260,16 @@ class C14(Check):
             if rng.random() < 0.1:
                 files.append(("in1.json", rng.choice(NONL_DOCS)))
             scen("n", prog, files, [], "output without a final line break")
+        # ---- several -r selectors whose results overlap, under rules that write: each selector is evaluated on the
+        # document as it was read (-r E is BEGINFILE { $ = E } on a fresh copy), through the library and through the binary
+        doc_a = '{"items":[{"k":"a","n":1},{"k":"b","n":2}],"n":5,"k":"top"}'
+        doc_b = "[[1,2],[3,4]]"
+        for prog in ["{ $.n = $.n * 10; print $index, $.n }", "{ $.n++; print $.k, $.n }"]:
+            for sels in [["$.items", "$.items"], ["$", "$.items"], ["$.items[0]", "$.items"], ["$.items[0].n = 7", "$.items"]]:
+                scen("v", prog, [("in0.json", doc_a)], sels, "overlapping selectors")
+        for prog in ["{ print $; $ = 0 }", "{ $[0] = \"w\"; print }"]:
+            for sels in [["$", "$"], ["$[0]", "$"], ["$", "$[0]", "$"]]:
+                scen("v", prog, [("in0.json", doc_b)], sels, "overlapping selectors")
         return cases
 
     def oracle(self, case, impl):
